@@ -16,15 +16,15 @@ Proof. intros t s H. rewrite gen_TCPSignature_parse_eq in H. exact (parse_tcp_si
 Theorem C09_translated_sig_roundtrip : forall s, printable s -> gen_TCPSignature_parse (print_tcp_sig s) = Ok s.
 Proof. intros s H. rewrite gen_TCPSignature_parse_eq. exact (parse_print_tcp_sig s H). Qed.
 
-(* C18: printed layouts and quirk lists parse back through the code's own _parse_options / _parse_quirks *)
+(* C18: layouts and quirk lists printed by the code's own TCPOptions.dump / dump_quirks parse back through its own _parse_options / _parse_quirks *)
 Theorem C18_translated_layout : forall l pad,
   Forall (fun k => 0 <= k <= 255) l -> 0 <= pad <= 255 ->
-  gen_parse_options (dump_layout l pad) = Ok (l, if existsb (Z.eqb 0) l then pad else 0).
-Proof. intros l pad Hl Hp. rewrite gen_parse_options_eq. exact (parse_dump_layout l pad Hl Hp). Qed.
+  gen_parse_options (gen_TCPOptions_dump l pad) = Ok (l, if existsb (Z.eqb 0) l then pad else 0).
+Proof. intros l pad Hl Hp. rewrite gen_TCPOptions_dump_eq, gen_parse_options_eq. exact (parse_dump_layout l pad Hl Hp). Qed.
 
 Theorem C18_translated_quirks : forall q ver,
-  (q < 2 ^ 17)%N -> N.land q (invalid_for ver) = 0%N -> gen_parse_quirks (dump_quirks q) ver = Ok q.
-Proof. intros q ver Hq Hi. rewrite gen_parse_quirks_eq. exact (parse_dump_quirks q ver Hq Hi). Qed.
+  (q < 2 ^ 17)%N -> N.land q (invalid_for ver) = 0%N -> gen_parse_quirks (gen_dump_quirks q) ver = Ok q.
+Proof. intros q ver Hq Hi. rewrite gen_dump_quirks_eq, gen_parse_quirks_eq. exact (parse_dump_quirks q ver Hq Hi). Qed.
 
 Theorem C10_translated_mtu_range : forall t m, gen_MTUSignature_parse t = Ok m -> 1 <= m <= 65535.
 Proof.
